@@ -22,7 +22,7 @@ timeout 900 cargo build --offline > /tmp/confirm/$name.build.log 2>&1; build=$?
 timeout 900 $NS "ip link set lo up; $RUN" > /tmp/confirm/$name.demo_mut.log 2>&1; demo_mut=$?
 rm -f tests/demo_mut.rs examples/demo_mut.rs
 # private network namespace: the repository's remote tests bind fixed loopback ports
-timeout 1800 $NS "ip link set lo up; cargo test --offline --workspace --no-fail-fast -- --test-threads=1" > /tmp/confirm/$name.suite.log 2>&1; suite=$?
+timeout 3600 $NS "ip link set lo up; cargo test --offline --workspace --no-fail-fast -- --test-threads=1" > /tmp/confirm/$name.suite.log 2>&1; suite=$?
 failed=$(grep -E "^test .* FAILED|^test result: FAILED" /tmp/confirm/$name.suite.log | head -5 | tr '\n' ';' | tr '"' "'")
 passed=$(grep -E "^test result: ok" /tmp/confirm/$name.suite.log | sed -E 's/.* ([0-9]+) passed.*/\1/' | paste -sd+ | bc)
 git checkout -- . 
